@@ -375,7 +375,7 @@ func checkCmd(id, tier string, seed uint64) int {
 		}
 		// new violation: minimise, write replay file, reproduce in a fresh process
 		rf := replayFile{Property: id, Tag: tag, Detail: v.Detail, Seed: seed, Index: v.Index, Scenario: v.Scenario}
-		path := filepath.Join(root, "replays", id, fmt.Sprintf("%d-%d-%s.json", seed, v.Index, safe(tag)))
+		path := filepath.Join(replayDir(), id, fmt.Sprintf("%d-%d-%s.json", seed, v.Index, safe(tag)))
 		_ = os.MkdirAll(filepath.Dir(path), 0o755)
 		raw, _ := json.MarshalIndent(rf, "", " ")
 		cand := filepath.Join(tmp, "cand.json")
@@ -536,8 +536,12 @@ func writeEvidence(id, tier string, seed uint64, m propMeta, t workerResult, dis
 		"assumptions": m.Assumptions, "wall_s": wall, "violations": viol,
 	}
 	b, _ := json.MarshalIndent(ev, "", " ")
-	_ = os.MkdirAll(filepath.Join(root, "evidence"), 0o755)
-	if err := os.WriteFile(filepath.Join(root, "evidence", id+".json"), b, 0o644); err != nil {
+	evdir := filepath.Join(root, "evidence")
+	if d := os.Getenv("VERIF_EVIDENCE_DIR"); d != "" {
+		evdir = d // used when the checks are pointed at deliberately broken trees
+	}
+	_ = os.MkdirAll(evdir, 0o755)
+	if err := os.WriteFile(filepath.Join(evdir, id+".json"), b, 0o644); err != nil {
 		infra("%v", err)
 	}
 }
@@ -611,4 +615,11 @@ func attemptsFor(path string) string {
 		return "5"
 	}
 	return "1"
+}
+
+func replayDir() string {
+	if d := os.Getenv("VERIF_REPLAY_DIR"); d != "" {
+		return d
+	}
+	return filepath.Join(root, "replays")
 }
